@@ -146,6 +146,9 @@ class ResponseEncoder:
             encoder = self.encode_stream
         else:
             encoder = self.encode_string
+            # Several charsets may be attempted: a one-shot iterator
+            # (a generator) must survive a failed attempt.
+            self.body = list(self.body)
             if 'Content-Length' in response.headers:
                 # Delete Content-Length header so finalize() recalcs it.
                 # Encoded strings may be of different lengths from their
